@@ -194,7 +194,7 @@ def sim_traces(res: TLCResult):
     return out
 
 
-def run_apalache(module: str, inv: str, cinit: str | None = None, length: int = 1, timeout: int = 600):
+def run_apalache(module: str, inv: str, cinit: str | None = None, length: int = 1, timeout: int = 600, init: str | None = None):
     """Apalache (symbolic, unbounded integers) on specs/<module>.tla. Returns ("ok" | "violation" | "unavailable", text)."""
     import shutil as _sh
 
@@ -206,6 +206,8 @@ def run_apalache(module: str, inv: str, cinit: str | None = None, length: int = 
         cmd = ["apalache-mc", "check", f"--inv={inv}", f"--length={length}", f"--out-dir={os.path.join(work, 'out')}"]
         if cinit:
             cmd.append(f"--cinit={cinit}")
+        if init:
+            cmd.append(f"--init={init}")
         cmd.append(f"{module}.tla")
         try:
             p = subprocess.run(cmd, cwd=work, capture_output=True, text=True, timeout=timeout)
